@@ -23,7 +23,11 @@ import (
 	"golang.org/x/tools/go/ssa"
 )
 
+// uvFoldVerdicts: per buffer length, "" (fine), a problem text, or "?..." when the fold failed.
+var uvFoldLast = map[*Program]map[int]string{}
+
 func ruleUVFold(c *Ctx) {
+	uvFoldLast[c.P] = map[int]string{}
 	c.Rule("UV-FOLD", "the varint decoder, folded on buffers of 1 to 11 named unknown bytes, accepts exactly the unsigned LEB128 encodings of 64-bit values (ten bytes at most, the tenth 0 or 1), yields the sum of (byte & 0x7f) << 7i, consumes exactly the bytes of the varint, and fails on everything else", 11)
 	P := c.P
 	rbN := P.NamedType(P.Avro, "ReadBuf")
@@ -205,6 +209,7 @@ func ruleUVFold(c *Ctx) {
 		}
 		switch {
 		case failed != "":
+			uvFoldLast[c.P][n] = "?" + failed
 			c.Unk(key, pos, "the fold of the decoder failed ("+failed+")")
 		default:
 			for k := 1; k <= n && k <= 10; k++ {
@@ -212,6 +217,7 @@ func ruleUVFold(c *Ctx) {
 					probs = append(probs, fmt.Sprintf("no %d-byte varint is accepted from a %d-byte buffer", k, n))
 				}
 			}
+			uvFoldLast[c.P][n] = strings.Join(dedup(probs), "; ")
 			c.Check(len(probs) == 0, key, pos, fmt.Sprintf("%d outcomes: success after k bytes exactly for the LEB128 byte sets, value = sum of (byte & 0x7f) << 7i, cursor = k; every other path fails", nOut), strings.Join(dedup(probs), "; "))
 		}
 	}
